@@ -222,8 +222,10 @@ def registry_worker(blocks):
                 name = real[h['f']]
                 inc = 1 if h['f'] == 'F' else 10
                 ver = h['ver']          # the version current when the evaluator was created
-                texts[i] = [(f'Sheet1!Q{i + 1}', f'={name.lower()}("1")', 1 + inc + 100 * ver),
-                            (f'Sheet1!R{i + 1}', f'=_xlfn.{name}(TRUE)+{name.capitalize()}(A1)', 2 + 2 * (inc + 100 * ver))]
+                # ONE cell per function: every evaluator of the history evaluates the same formula of the shared model
+                row = 1 if h['f'] == 'F' else 2
+                texts[i] = [(f'Sheet1!Q{row}', f'={name.lower()}("1")', 1 + inc + 100 * ver),
+                            (f'Sheet1!R{row}', f'=_xlfn.{name}(TRUE)+{name.capitalize()}(A1)', 2 + 2 * (inc + 100 * ver))]
                 for addr, text, _ in texts[i]:
                     cells[addr] = text
         model = L.ModelCompiler().read_and_parse_dict(cells)
@@ -302,7 +304,11 @@ def run(run):
     run.traces += len(ncases)
     run.notes['name_spelling_cases'] = len(ncases)
     # registry histories
-    rr = run.tlc('XlRegistry', 'C08_registry.cfg', dump=True, timeout=300)
+    rr = run.tlc('XlRegistry', 'C08_registry.cfg', dump=True, timeout=600)
+    rb = run.tlc('XlRegistry', 'C08_bad_registry_per_node.cfg', expect_violation=True, timeout=300)
+    if rb.violated != 'CallUsesOwnTable':
+        raise xl.MachineryError(f'design variant per-node binding was not rejected by TLC (CallUsesOwnTable): {rb.violated}')
+    run.laws['variant C08_bad_registry_per_node.cfg rejected'] = rb.violated
     rblocks = pool.dump_blocks(rr.dump)
     nreg = 0
     for res in pool.pmap(registry_worker, rblocks, procs=4):
@@ -319,7 +325,7 @@ def run(run):
                 '0): result compared with the native-spelling result, through direct calls and formulas with the argument as a literal '
                 'and in a referenced cell; non-numeric text in every numeric position => #VALUE!; the 11x11 scalar matrix x arithmetic '
                 'operators and &; numbers/booleans as text arguments; every non-operator witness under 5 function-name spellings; all '
-                'registry histories of length <= 5 over 2 functions and 2 evaluators')
+                'registry histories of length <= 6 over 2 functions and 2 evaluators sharing one model (one formula cell per function)')
     run.exhaustive = True
 
 
